@@ -80,6 +80,9 @@ func (m *AuthResponseMsg) Decode(r io.Reader) (err error) {
 		return fmt.Errorf("failed to read signature length: %w", err)
 	}
 
+	if signatureLen > math.MaxUint16 {
+		return fmt.Errorf("signature length out of bounds: %d", signatureLen)
+	}
 	// Read the signature bytes
 	m.Signature = make([]byte, signatureLen)
 	_, err = io.ReadFull(r, m.Signature)
